@@ -7,6 +7,7 @@ import (
 	"fmt"
 	"sort"
 	"strings"
+	"sync"
 
 	"github.com/ipfs/go-cid"
 	"github.com/ipld/go-ipld-prime"
@@ -22,7 +23,7 @@ import (
 func init() {
 	register(stream{
 		name: "container",
-		rule: "sets of 0–4 sealed delegations and invocations written with every writer (4 formats × {bytes, io.Writer}) and read with every reader (4 formats × {bytes, 1-byte reads, data-with-EOF reads, random chunkings}); single-entry corruptions of the written container (bit flips in the data, the stored CID and the length prefix, a token with a bad signature, duplicated and reordered blocks, a block stored under a CID of another codec/hash, a wrong version, trailing bytes); truncation at EVERY byte offset and a read fault at every offset (every 3rd in the quick tier); a write fault at EVERY write call of every writer including the final flush of the base64 encoders; single tokens: FromSealedReader under five chunkings, cut and failing at every offset, ToSealedWriter failing at every write call. Compared: error/ok and the set of CIDs. Non-trivial = every case but the unmodified round trips. Distinct = distinct protocol lines.",
+		rule: "sets of 0–4 sealed delegations and invocations written with every writer (4 formats × {bytes, io.Writer}) and read with every reader (4 formats × {bytes, 1-byte reads, data-with-EOF reads, random chunkings}); single-entry corruptions of the written container (bit flips in the data, the stored CID and the length prefix, a token with a bad signature, duplicated and reordered blocks, a block stored under a CID of another codec/hash, a wrong version, trailing bytes); truncation at EVERY byte offset and a read fault at every offset (every 3rd in the quick tier, plus always the structural offsets: around each section boundary and right after each length prefix); unrelated writers and readers used from 8 goroutines at once; a write fault at EVERY write call of every writer including the final flush of the base64 encoders; single tokens: FromSealedReader under five chunkings, cut and failing at every offset, ToSealedWriter failing at every write call. Compared: error/ok and the set of CIDs. Non-trivial = every case but the unmodified round trips. Distinct = distinct protocol lines.",
 		run:  runContainerStream,
 		eval: evalContainer,
 		cmp: func(line, g, m string) string {
@@ -200,6 +201,8 @@ func evalContainer(line string) (string, string) {
 		return readContainer(f[1], variant, f[2], b), fmt.Sprintf("container read %s/%s/%s of %d bytes", f[1], variant, f[2], len(b))
 	case "go.ctn.write":
 		return containerWriteCheck(f[1], f[2]), line
+	case "go.ctn.concurrent":
+		return containerConcurrent(), line
 	case "go.tok.stream":
 		return tokenStreamCheck(f[1], f[2], f[3]), line
 	}
@@ -403,6 +406,88 @@ func tokenStreamCheck(kind, alg, ns string) (out string) {
 	return "ok"
 }
 
+// containerConcurrent: unrelated Writers and Readers used from several goroutines at once behave as when used
+// alone (a sampled schedule test: every written container must read back to exactly its own tokens).
+func containerConcurrent() string {
+	var sets [][][]byte
+	for g := 0; g < 8; g++ {
+		var sealed [][]byte
+		for i := 0; i <= g%4; i++ {
+			b, _, _, err := sealFixture([]string{"dlg", "inv"}[(g+i)%2], "ed25519", g+i)
+			if err != nil {
+				return "fixture: " + err.Error()
+			}
+			sealed = append(sealed, b)
+		}
+		sets = append(sets, sealed)
+	}
+	var wg sync.WaitGroup
+	bad := make(chan string, 16)
+	for g := range sets {
+		wg.Add(1)
+		go func(g int) {
+			defer wg.Done()
+			defer func() {
+				if r := recover(); r != nil {
+					bad <- fmt.Sprint("panic ", r)
+				}
+			}()
+			var cids []string
+			for _, s := range sets[g] {
+				cids = append(cids, hx(independentCid(s).Bytes()))
+			}
+			sort.Strings(cids)
+			want := "ok " + strings.Join(cids, ",")
+			for r := 0; r < 400; r++ {
+				f := []string{"car", "cbor", "carb64", "cborb64"}[(g+r)%4]
+				b, err := writeWith(f, r%2 == 0, sets[g])
+				if err != nil {
+					bad <- "concurrent write failed: " + err.Error()
+					return
+				}
+				if got := readContainer(f, []string{"bytes", "stream1"}[r%2], "eof", b); got != want {
+					bad <- "a container written while other goroutines were writing theirs does not read back to its own tokens (" + f + "): " + got
+					return
+				}
+			}
+		}(g)
+	}
+	wg.Wait()
+	close(bad)
+	for m := range bad {
+		return m
+	}
+	return "ok"
+}
+
+// structuralOffsets: the cut points that matter for a CAR — around every section boundary and right after
+// every length prefix
+func structuralOffsets(raw []byte) []int {
+	var offs []int
+	pos := 0
+	b := raw
+	for len(b) > 0 {
+		l, n := binary.Uvarint(b)
+		if n <= 0 || uint64(len(b)-n) < l {
+			break
+		}
+		for _, d := range []int{-1, 0, 1} {
+			offs = append(offs, pos+d, pos+n+d, pos+n+int(l)+d)
+		}
+		pos += n + int(l)
+		b = b[n+int(l):]
+	}
+	var out []int
+	seen := map[int]bool{}
+	for _, o := range offs {
+		if o >= 0 && o < len(raw) && !seen[o] {
+			seen[o] = true
+			out = append(out, o)
+		}
+	}
+	return out
+}
+
 func runContainerStream(c *ctx) error {
 	formats := []string{"car", "carb64", "cbor", "cborb64"}
 	emitRead := func(format, ending string, b []byte, variant, class string) {
@@ -415,6 +500,7 @@ func runContainerStream(c *ctx) error {
 			c.emit(fmt.Sprintf("go.ctn.write %s %d", f, n), "container.write:"+f, true, "write:"+f)
 		}
 	}
+	c.emit("go.ctn.concurrent", "container.concurrent", true, "concurrent")
 	for _, kind := range []string{"dlg", "inv"} {
 		for i, alg := range []string{"ed25519", "p256", "secp256k1"} {
 			c.emit(fmt.Sprintf("go.tok.stream %s %s %d", kind, alg, i), "token.stream:"+kind, true, "tokstream:"+kind)
@@ -508,6 +594,22 @@ func runContainerStream(c *ctx) error {
 				emitRead(f, "fault", b[:off], []string{"stream1", "chunks5.2", "streamdata"}[off%3], "read-fault")
 			}
 			emitRead(f, "fault", b, "stream1", "read-fault")
+			if f == "car" {
+				for _, off := range structuralOffsets(b) {
+					for _, v := range []string{"bytes", "stream1", "streamdata"} {
+						emitRead(f, "eof", b[:off], v, "truncated")
+					}
+					emitRead(f, "fault", b[:off], "chunks4", "read-fault")
+				}
+			}
+			if f == "carb64" {
+				raw2, _ := base64.StdEncoding.DecodeString(string(b))
+				for _, off := range structuralOffsets(raw2) {
+					if off%3 == 0 { // a cut of the base64 text on a 4-character group is a clean cut of the CAR
+						emitRead(f, "eof", b[:off/3*4], "stream1", "truncated")
+					}
+				}
+			}
 		}
 	}
 	return nil
